@@ -12,6 +12,21 @@ CHECKS = {
         text='Runtime monitoring of real executions: every generated WN-LMF document (all versions, extensions, hostile strings, each optional feature toggled) is added with the real wn.add and the whole public query API is walked and compared, field by field, with an independent reference model of what the document says; the SQLite trace checks the one-transaction bracket, the authorizer records which tables each case reached, a structural audit runs after every add. Held on K generated documents, nothing is proved.',
         note='Trusts sqlite3/pyexpat, the harness writer (cross-checked against wn.lmf.load in C02) and the reference model (vf/model/db.py); ids unique within a lexicon family; tags/pronunciations on forms an extension newly adds to an external entry are not generated.',
         ref='3/C01'),
+    'C02': dict(
+        technique='round-trip monitor: independent writer -> real load -> real dump/load per LMF version, compared with the document model and its per-version projection; byte fixed point',
+        text='Runtime monitoring: each generated file (harness writer, varied surface form) is loaded by the real reader and compared with the document model that was written; the loaded resource is then dumped and re-loaded by the real code in every admissible LMF version and compared with the version projection, and dump(load(.)) is checked to be a byte fixed point. Held on K generated resources x versions; no proof.',
+        note='Normal-form equivalences of DESIGN section 8; entry-level frames count as the 1.0 encoding, lexicon-level frames + subcat as the 1.1+ encoding (the quantifier of the property).',
+        ref='3/C02'),
+    'C03': dict(
+        technique='differential monitor: export -> load vs projected document model; re-import into an empty database vs the reference model and vs the first database (real-vs-real observation)',
+        text='Runtime monitoring: generated non-extension lexicons are added, exported by the real wn.export in each of 1.0-1.3, every export is loaded (compared with the projection of the added documents, sense-frame links as a relation) and re-added to an empty database whose full public-API observation is compared with the model and with the first database; clashing identifiers must be refused. Held on K databases x 4 versions.',
+        note='What the database legitimately forgets is not demanded (frames without senses, frame encoding, ILIDefinition of non-proposed ILIs).',
+        ref='3/C03'),
+    'C20': dict(
+        technique='single-fault XML mutation workload against real load()/add() with table-dump and SQL-trace monitors; scan_lexicons/is_lmf compared with load() on varied surface forms',
+        text='Runtime monitoring: every generated valid document is checked in three surface forms and as dump() output (is_lmf, scan_lexicons == load, add succeeds); then each applicable single-fault mutant of the listed classes is given to the real load() and add() on a non-empty database: both must raise, the logical dump of all tables must be unchanged; header variants compare is_lmf() with load(). Held on K mutants; acceptance is the only alarm (which exception is raised is not constrained).',
+        note='Fault classes are exactly those of the statement; misplaced-but-known elements are not generated.  Known finding: add() does not parse a file whose lexicons are all skipped.',
+        ref='3/C20'),
 }
 
 NOT_YET = 'check not built yet in this round (work in progress; see DESIGN.md section 3 for the design)'
